@@ -8,6 +8,7 @@
 // usage: lock_seq cls=pess|opt|mcs seed=S programs=P steps=L chaos=0..2 hang_s=SEC
 #define VERIF_MAIN_TU
 #include <pthread.h>
+#include <signal.h>
 
 #include <algorithm>
 #include <memory>
@@ -82,6 +83,33 @@ struct SeqCfg {
 SeqCfg g_scfg;
 
 Mailbox *g_boxes_by_tid[kVT];
+thread_local int tl_cur_op = -1;
+thread_local int tl_cur_kind = -1;
+
+void
+SeqCrashHandler(int sig, siginfo_t *si, void *)
+{
+  static std::atomic<int> once{0};
+  if (once.exchange(1) != 0) _exit(4);
+  const bool mcs = strcmp(g_cls_name, "mcs") == 0;
+  const bool guard_op = tl_cur_op == kReset || tl_cur_op == kDtor || tl_cur_op == kMoveCtor || tl_cur_op == kMoveAssign;
+  const char *prop = tl_cur_op < 0 ? "HARNESS" : ((guard_op || !mcs) ? "C07" : "C12");
+  char buf[1024];
+  const int n = snprintf(buf, sizeof buf,
+                         "RESULT {\"status\":\"crash\",\"counters\":{\"crashes\":1,\"evaluations\":%" PRIu64 "},\"strings\":{},\"chaos\":{},"
+                         "\"samples\":[],\"signatures\":[],\"violations\":[{\"prop\":\"%s\",\"key\":\"%s:invalid-memory-access-inside-%s%s%s\","
+                         "\"detail\":\"class=%s lock_seq: signal %d at address %p while virtual thread %d was executing %s on %s\",\"count\":1}],"
+                         "\"observations\":{}}\n",
+                         g_ops_done.load(kRlx) + 1, prop, g_cls_name, tl_cur_op >= 0 ? kOpKNames[tl_cur_op] : "harness",
+                         (guard_op && tl_cur_kind >= 0) ? "-of-" : "", (guard_op && tl_cur_kind >= 0) ? kKindNames[tl_cur_kind] : "", g_cls_name, sig,
+                         si ? si->si_addr : nullptr, t_mon.tid, tl_cur_op >= 0 ? kOpKNames[tl_cur_op] : "?",
+                         (guard_op && tl_cur_kind >= 0) ? kKindNames[tl_cur_kind] : "-");
+  if (n > 0) {
+    const auto w = write(1, buf, static_cast<size_t>(n));
+    (void)w;
+  }
+  _exit(0);
+}
 
 void
 SeqPointCb(int id, const void *obj)
@@ -176,6 +204,8 @@ struct VThread {
     Res &r = mb.res;
     r = Res{};
     tl_track = 1;
+    tl_cur_op = c.op;
+    tl_cur_kind = (c.op == kReset || c.op == kDtor || c.op == kMoveCtor || c.op == kMoveAssign) ? c.a : -1;
     switch (c.op) {
       case kLock:
         t_mon.pend_lock = &locks[c.k];
@@ -251,6 +281,7 @@ struct VThread {
         break;
     }
     tl_track = 0;
+    tl_cur_op = -1;
     Snapshot(r);
     r.done_tick = Tick();
   }
@@ -277,6 +308,7 @@ struct Holder {
   int t;
   int mode;
   uint64_t acq;  // completion ticket of the acquiring operation
+  bool conv{false};  // grant obtained through UpgradeToX / DowngradeToSIX
 };
 
 struct MLock {
@@ -409,14 +441,14 @@ class Controller
   }
 
   void
-  AddHolder(int k, int mode, int d, int t = -1, uint64_t acq = 0)
+  AddHolder(int k, int mode, int d, int t = -1, uint64_t acq = 0, bool conv = false)
   {
     if (mode == kS) ml_[k].nS += d;
     if (mode == kSIX) ml_[k].nSIX += d;
     if (mode == kX) ml_[k].nX += d;
     auto &hs = ml_[k].holders;
     if (d > 0) {
-      hs.push_back({t, mode, acq});
+      hs.push_back({t, mode, acq, conv});
     } else {
       for (size_t i = 0; i < hs.size(); ++i) {
         if (hs[i].mode == mode && (t < 0 || hs[i].t == t)) {
@@ -435,6 +467,14 @@ class Controller
     const bool bad = l.nX > 0 || (mode != kS && l.nSIX > 0) || (mode == kX && l.nS > 0);
     sigs_.insert(Fmt("%s:grant:%s:%s:model-holders=%s", T::kName, api, ModeName(mode),
                      l.nX ? "X" : (l.nSIX && l.nS ? "S+SIX" : (l.nSIX ? "SIX" : (l.nS ? "S" : "free")))));
+    bool conv_held = false;
+    for (auto &h : l.holders) conv_held |= h.conv;
+    if (bad && mode != kS && conv_held) {
+      Fail("C10", Fmt("%s-granted-%s-while-converted-grant-held", api, ModeName(mode)),
+           Fmt("t%d obtained %s on lock %d via %s while another thread still holds the grant it obtained through UpgradeToX/DowngradeToSIX "
+               "(model S:%d SIX:%d X:%d)",
+               t, ModeName(mode), k, api, l.nS, l.nSIX, l.nX));
+    }
     if (bad) {
       Fail(prop, Fmt("%s-granted-%s-while-conflicting-grant-held", api, ModeName(mode)),
            Fmt("t%d obtained %s on lock %d via %s while the model (grants added when their acquiring operation was observed complete, "
@@ -631,7 +671,7 @@ class Controller
                  Fmt("'%s' returned while the model holds S:%d SIX:%d (own included) X:%d on lock %d", what.c_str(), l.nS, l.nSIX, l.nX, k));
           }
           AddHolder(k, kSIX, -1, t);
-          AddHolder(k, kX, +1, t, r.done_tick);
+          AddHolder(k, kX, +1, t, r.done_tick, true);
           dst = MSlot{};
           dst.own = true;
           dst.lock = k;
@@ -969,7 +1009,7 @@ class Controller
           // X -> SIX: the model shows SIX from now on; the version is published by the downgrade
           pend_[t].pre_released_lock = m.lock;
           AddHolder(m.lock, kX, -1, t);
-          AddHolder(m.lock, kSIX, +1, t, now);
+          AddHolder(m.lock, kSIX, +1, t, now, true);
           if (T::kOpt) ml_[m.lock].vers.push_back({m.new_ver, now, 0});
           m.own = false;
         }
@@ -1180,6 +1220,16 @@ class Controller
   {
     g_cls_name = T::kName;
     g_point_cb = &SeqPointCb;
+#if !VERIF_ASAN && !VERIF_TSAN
+    {
+      struct sigaction sa {};
+      sa.sa_sigaction = &SeqCrashHandler;
+      sa.sa_flags = SA_SIGINFO;
+      sigaction(SIGSEGV, &sa, nullptr);
+      sigaction(SIGBUS, &sa, nullptr);
+      sigaction(SIGABRT, &sa, nullptr);
+    }
+#endif
     r_.Seed(g_scfg.seed * 2654435761ULL + 99);
     {
       using namespace ::dbgroup::verif;
